@@ -46,6 +46,10 @@ def search_lo(chk, r, n):
     # flavours active (both third-generation masks at once)
     structured += [("NC", proj, kind, 3000.0, pol, None) for proj in ("neutrino", "antineutrino") for kind in ("F2", "F3") for pol in (0.0, 0.6, -1.0)]
     structured += [("CC", proj, kind, 30000.0, 0.0, 0) for proj in cards.PROJECTILES for kind in ("F2", "F3")]
+    # weights that are genuinely tiny (pure-Z exchange at Q2 = 1 GeV2: ~1e-9; a CKM element of 5e-5) are
+    # still weights; and the set of active quarks follows (k m)^2, not k m^2
+    structured += [("NC", "neutrino", "F2", 1.0, 0.0, None), ("NC", "antineutrino", "F3", 1.0, 0.5, None), ("CC", "neutrino", "F2", 50.0, 0.0, 5, dict(CKM="0.97428 0.2253 0.00005 0.2252 0.97345 0.041 0.00862 0.0403 0.999152")),
+                   ("EM", "electron", "F2", 6.0, 0.0, 0, dict(kcThr=2.0)), ("CC", "neutrino", "F2", 9.0, 0.0, 0, dict(kbThr=0.5)), ("NC", "positron", "F3", 6.0, 0.4, 0, dict(kcThr=2.0))]
     for i in range(n + len(structured)):
         process = r.choice(["EM", "NC", "NC", "CC"])
         th_kw, ob_kw = cards.rand_ew(r)
@@ -58,8 +62,10 @@ def search_lo(chk, r, n):
         Q2 = float(r.choice([5.0, 50.0, 3000.0, 30000.0]))
         force_hq = None
         if i < len(structured):
-            process, proj, kind, Q2, pol, force_hq = structured[i]
+            process, proj, kind, Q2, pol, force_hq = structured[i][:6]
             ob_kw = dict(ob_kw, PolarizationDIS=pol)
+            if len(structured[i]) > 6:
+                th_kw = dict(th_kw, **structured[i][6])
         k = r.randrange(2, len(grid) - 1)
         x = grid[k]
         t = cards.theory(PTO=0, FNS="ZM-VFNS", **th_kw)
@@ -89,7 +95,9 @@ def search_lo(chk, r, n):
         # FL has no LO term; gL likewise
         if kind in ("FL", "gL"):
             exp[:] = 0.0
-        scale = max(1.0, float(np.abs(exp).max()))
+        # relative to the largest expected entry (weights of 1e-9 are weights too); an operator expected
+        # to vanish identically must be exactly zero
+        scale = float(np.abs(exp).max())
         d = float(np.abs(op - exp).max())
         sample = dict(kind=kind, flavor=flname, process=process, projectile=proj, x=x, Q2=Q2, node=k, nf=nf, theory=th_kw, obs=ob_kw, maxdiff=d)
         chk.search_case("lo_operator_vs_pdg", d <= 1e-9 * scale, what=f"LO {kind}_{flname} {process} {proj} operator != x*w*delta", data=sample, sample=sample, nontrivial=bool(np.abs(exp).max() > 0))
